@@ -183,6 +183,26 @@ def run(ctx):
 
     # ------------------------------------------------------------------ R1
     ctx.rule("R1", "validator schema of MolecularOrbitals and Shell", "arrays whose lengths disagree with the number of orbitals / shell shape are accepted")
+    # validators run on assignment too: neither the classes nor their fields may replace attrs' default on_setattr
+    # (convert + validate) by something that drops validation
+    for cinfo_ in (mo, sh, prog.cls("iodata.basis.MolecularBasis")):
+        okc = True
+        for d in cinfo_.node.decorator_list:
+            if isinstance(d, ast.Call):
+                for k in d.keywords:
+                    if k.arg == "on_setattr" and "validate" not in src_of(k.value):
+                        okc = False
+                        ctx.violate("R1", f"{cinfo_.name} is defined with on_setattr=`{src_of(k.value)}`: values assigned after construction are no longer validated (wrong-length arrays, contradicting kinds are accepted)", relpath=cinfo_.module.relpath, function=cinfo_.qualname, node=d, construct=f"class on_setattr={src_of(k.value)}")
+                    if k.arg == "frozen" and isinstance(k.value, ast.Constant) and k.value.value is True:
+                        pass
+        for st in cinfo_.node.body:
+            if isinstance(st, ast.AnnAssign) and isinstance(st.value, ast.Call):
+                for k in st.value.keywords:
+                    if k.arg == "on_setattr" and "validate" not in src_of(k.value):
+                        okc = False
+                        ctx.violate("R1", f"field {cinfo_.name}.{src_of(st.target)} overrides on_setattr with `{src_of(k.value)}`: assignments are no longer validated", relpath=cinfo_.module.relpath, function=cinfo_.qualname, node=st, construct=f"field {src_of(st.target)} on_setattr={src_of(k.value)}")
+        if okc:
+            ctx.ok("R1", f"{cinfo_.name}: validators also run on assignment (attrs default on_setattr kept)", f"{cinfo_.module.relpath}:{cinfo_.node.lineno}", sample=False)
     want_mo = {
         "occs": ("shape", ("'norb'",)), "energies": ("shape", ("'norb'",)), "irreps": ("shape", ("'norb'",)),
         "occs_aminusb": ("shape", ("'norb'",)), "coeffs": ("shape", ("None", "'norb'")),
